@@ -6,6 +6,7 @@ import (
 	"fmt"
 	"io"
 	"math/rand"
+	"strings"
 )
 
 // Seeded writes larger cases than the exhaustive TLC generator reaches.  The case format is the one Publish.tla emits.
@@ -172,9 +173,9 @@ func hostile(rng *rand.Rand, d *Doc) {
 	// pointers of families follow the people they mention: nothing to do (indices)
 }
 
-const taintBenign = "xq7xxxx"
+const taintBenign = "q7"
 
-func tainted(d Doc, suffix string) Doc {
+func tainted(d Doc, suffix string, taintPointers bool) Doc {
 	var t Doc
 	b, _ := json.Marshal(d)
 	json.Unmarshal(b, &t)
@@ -194,7 +195,10 @@ func tainted(d Doc, suffix string) Doc {
 			p.Sex = ad(p.Sex)
 		}
 		for k := range p.Lines {
-			p.Lines[k] = ad(p.Lines[k])
+			// only lines that carry a value (not a pointer)
+			if f := strings.SplitN(p.Lines[k], " ", 3); len(f) == 3 && !strings.HasPrefix(f[2], "@") {
+				p.Lines[k] = ad(p.Lines[k])
+			}
 		}
 	}
 	for i := range t.Families {
@@ -202,6 +206,19 @@ func tainted(d Doc, suffix string) Doc {
 	}
 	for i := range t.Sources {
 		t.Sources[i].Title, t.Sources[i].Auth = ad(t.Sources[i].Title), ad(t.Sources[i].Auth)
+		for k := range t.Sources[i].Lines {
+			t.Sources[i].Lines[k] = ad(t.Sources[i].Lines[k])
+		}
+		if taintPointers {
+			// the pointer as well, and every reference to it
+			old := t.Sources[i].P
+			t.Sources[i].P = ad(old)
+			for q := range t.People {
+				for k, l := range t.People[q].Lines {
+					t.People[q].Lines[k] = strings.Replace(l, "@"+old+"@", "@"+t.Sources[i].P+"@", 1)
+				}
+			}
+		}
 	}
 	normDoc(&t)
 	return t
@@ -272,8 +289,18 @@ func Seeded(w io.Writer, seed int64, kind string, n int) error {
 					p.Kind = "deat"
 				}
 			}
-			c.Doc = tainted(base, Taint)
-			c.Twin = tainted(base, taintBenign)
+			for k := range base.Sources {
+				src := &base.Sources[k]
+				src.Lines = []string{"1 PUBL " + mk("A", 'c', k), "1 ABBR " + mk("B", 'h', k), "1 TEXT " + mk("C", 'i', k), "1 _CUSTOM " + mk("D", 'k', k), "1 REFN " + mk("E", 'm', k)}[:rng.Intn(6)]
+			}
+			for k := range base.People { // dates that are not dates, and dated events with a value
+				if rng.Intn(3) == 0 {
+					base.People[k].Lines = append(base.People[k].Lines, "1 CENS", "2 DATE 1 Jan 19"+fmt.Sprint(10+k), "1 GRAD "+mk("F", 'z', k), "2 DATE sometime"+fmt.Sprint(k))
+				}
+			}
+			tp := rng.Intn(3) == 0
+			c.Doc = tainted(base, Taint, tp)
+			c.Twin = tainted(base, taintBenign, tp)
 			c.Prior = graph(rng, 1+rng.Intn(3), "")
 			c.Opts = subsetOpts(rng, []string{"show", "placeholder", "hide"}[rng.Intn(3)])
 			c.Opts.Individuals, c.Opts.Sources, c.Opts.Surnames, c.Opts.Places = true, true, true, true
